@@ -4,10 +4,15 @@
     Proved here, for every URI / status (no size bound): path variables and required path
     parameters correspond one to one and in order; every response key is default, a code
     100-599 or 1XX-5XX; operationId uniqueness is refuted on the faithful model (K6).
-    $ref closure is a property of the evaluator's reference table and is stated with the
-    evaluator model (C09/C01 files); the YAML re-parse clause is checked on the
-    implementation only. *)
+    $ref closure, evaluator half, on the evaluator model (Model/Eval.v, tied to eval.rs on
+    every run): in the Spec of every successful evaluation, every reference occurring in a
+    relation or in a schema of the reference table names an entry of that table, and no entry
+    is left pending ([C03_spec_refs_closed]; invariant: every key mentioned by a value, a scope
+    or a table entry is in the table or is the variable of a recursion being evaluated). The
+    emitter's half (names of components = names in $ref) and the YAML re-parse clause are
+    checked on the implementation only. *)
 From Oal Require Import SpecUri SpecUriProofs.
+From Oal Require Eval ClosureProofs.
 
 Theorem C03_path_params_match : forall segs,
   forallb wf_seg segs = true -> braces (pattern segs) None = path_params segs.
@@ -40,3 +45,18 @@ Print Assumptions C03_operation_ids_refuted.
 Example C03_wf_inhabited :
   forallb wf_seg [SLit [97]; SVar [105; 100]; SLit []; SVar [110]] = true.
 Proof. reflexivity. Qed.
+
+(** * every reference of the evaluated Spec resolves in its reference table *)
+Theorem C03_spec_refs_closed : forall P n rs rels table,
+  Eval.eval_program false P n rs = Eval.Ok (rels, table) ->
+  (forall k, In k (flat_map ClosureProofs.ks_relation rels) -> In k (map fst table)) /\
+  (forall k sc, In (k, sc) table -> forall k', In k' (ClosureProofs.ks_schema sc) -> In k' (map fst table)).
+Proof. exact ClosureProofs.spec_closed. Qed.
+Print Assumptions C03_spec_refs_closed.
+
+(** non-vacuity: two instantiations of a recursive schema, two components, both referenced *)
+Example C03_two_components_referenced :
+  exists rels sc1 sc2 k1 k2,
+    Eval.eval_program false ClosureProofs.ex_rec_P 50 ClosureProofs.ex_rec_rs = Eval.Ok (rels, [(k1, sc1); (k2, sc2)]) /\ k1 <> k2 /\
+    In k1 (flat_map ClosureProofs.ks_relation rels) /\ In k2 (flat_map ClosureProofs.ks_relation rels).
+Proof. exact ClosureProofs.ex_rec_two_components. Qed.
